@@ -337,6 +337,29 @@ def handle (dflt : Str) (d : Dec) : Str × Option Rewrite :=
       | some p => ⟨h, some p, none⟩
       | none => ⟨h, none, some h⟩))
 
+/-- `ResolveInfo` of a request (extras/outbounds/interface.go): it can carry an error AND
+    addresses (one of the A/AAAA lookups failed, the other did not) -/
+structure RInfo where
+  v4 : IP
+  v6 : IP
+  err : Bool
+  deriving DecidableEq, Repr
+
+/-- the `acl.HostInfo` that `aclEngine.handle` builds from the request: the name, and BOTH
+    addresses of the resolution whenever the request has a `ResolveInfo` at all — the code's
+    guard is `reqAddr.ResolveInfo != nil` and nothing else; in particular not `Err == nil` -/
+def reqQuery (name : Str) (ri : Option RInfo) (proto : Proto) (port : Nat) : Query :=
+  match ri with
+  | none => ⟨name, [], [], proto, port⟩
+  | some r => ⟨name, r.v4, r.v6, proto, port⟩
+
+/-- one `aclEngine.handle` call: build the HostInfo, `Match` (cached), default / hijack -/
+def engineHandle (U : Str → Str) (rules : List Rule) (dflt : Str) (c : Store)
+    (name : Str) (ri : Option RInfo) (proto : Proto) (port : Nat) (evict : Key → Bool) :
+    Store × Dec × (Str × Option Rewrite) :=
+  let r := cachedMatch U rules c (reqQuery name ri proto port) evict
+  (r.1, r.2, handle dflt r.2)
+
 /-! ### net.ParseIP / net.ParseCIDR (netip.ParseAddr of Go 1.25, zone ⇒ invalid) -/
 
 def parseV4Field (f : Str) : Option Nat :=
